@@ -169,6 +169,45 @@ theorem C15_global_sequential (r₀ r₀' : Registry) (progs : List (List Ev))
     rfl hfree hclosed i p hp
   simpa [seqSchedule] using this
 
+/-- **A memo that is reset at the start of each use instead of being cleared at the end** (the
+shape of a "resolved once per section" cache held in one process-wide object, e.g. a
+`ContextVar` whose mutable default object is mutated in place — see `Model.Interleave`): also
+exact under sequential use, from any leftover content of the cell and without the programs
+cleaning up after themselves. -/
+theorem C15_global_sequential_reset (r₀ r₀' : Registry) (c₀ : Option Palette)
+    (progs : List (List Ev))
+    (hfree : ∀ q ∈ progs, freeGets q = []) (hopen : ∀ q ∈ progs, opensWithReset q = true)
+    (i : Nat) (p : List Ev) (hp : progs[i]? = some p) :
+    outOf (run .Global (seqSchedule progs)
+      { threads := progs.map (fun q => { prog := q, ctx := none, out := [] }),
+        sh := { reg := r₀, cell := c₀ } }) i = solo .Global r₀' p := by
+  have := seq_global_reset_aux r₀' progs 0
+    { threads := progs.map (fun q => { prog := q, ctx := none, out := [] }),
+      sh := { reg := r₀, cell := c₀ } }
+    (by intro j q hq; simp [fresh, hq])
+    hfree hopen i p hp
+  simpa [seqSchedule] using this
+
+/-- two sections that memoise under the same key (`5`) values that resolve differently
+(position 2 in `[2, 5]`, position 1 in `[5, 9]`), each used twice -/
+def memoProgs : List (List Ev) := [memoProg [2, 5] 5 2, memoProg [5, 9] 5 2]
+
+/-- **The shared-default memo is the process-wide cell.**  One preemption of thread 0 between
+its first and its second use, thread 1 runs its whole section in the gap: thread 0's second use
+obtains thread 1's value (`Global`); with one cell per thread the same schedule returns the
+solo values (`Local`); and without preemption the process-wide memo is exact, although nobody
+clears it at the end (`cellAfter … ≠ none`, so `C15_global_sequential` does not apply but
+`C15_global_sequential_reset` does). -/
+theorem C15_shared_default_memo_interferes :
+    let sched := [0, 0, 0] ++ List.replicate 4 1 ++ [0]
+    outOf (run .Global sched (init [] memoProgs)) 0 = [.idx 2, .idx 1] ∧
+    solo .Global [] (memoProg [2, 5] 5 2) = [.idx 2, .idx 2] ∧
+    outOf (run .Local sched (init [] memoProgs)) 0 = solo .Local [] (memoProg [2, 5] 5 2) ∧
+    outOf (run .Global (seqSchedule memoProgs) (init [] memoProgs)) 0 = [.idx 2, .idx 2] ∧
+    outOf (run .Global (seqSchedule memoProgs) (init [] memoProgs)) 1 = [.idx 1, .idx 1] ∧
+    (∀ q ∈ memoProgs, opensWithReset q = true ∧ freeGets q = [] ∧ cellAfter none q ≠ none) := by
+  decide
+
 /-- the same on the witness programs, by evaluation -/
 example :
     let σ := run .Global (List.replicate 7 0 ++ List.replicate 7 1) (init [] witnessProgs)
